@@ -241,6 +241,8 @@ class ChildrenList(list):
         '''
         # (list.insert clamps a too-negative index to the first position)
         positiveindex = index if index >= 0 else max(0, len(self) + index)
+        # (and an index beyond the end to the position after the last item)
+        positiveindex = min(positiveindex, len(self))
         self._validate_item(positiveindex, item)
         self._check_is_orphan(item)
         # Check that all displaced items will still in valid positions
